@@ -16,12 +16,15 @@ def have_rule(prop):
                                        prop.lower() + '.py'))
 
 
-def run_property(prop, tier, seed, repo=None, out=sys.stdout, eng=None):
+def run_property(prop, tier, seed, repo=None, out=sys.stdout, eng=None,
+                 extra=None):
     from .engine import Engine
     try:
         if eng is None:
             eng = Engine(repo)
         ctx = Ctx(prop, tier, seed, eng.m)
+        if extra is not None:
+            ctx.record('checker_selftest', extra)
         eng.base_counts(ctx)
         mod = importlib.import_module('h2verif.rules.%s' % prop.lower())
         mod.run(ctx, eng)
@@ -59,7 +62,7 @@ def main(argv=None):
         return selfcheck.main()
     if a.selftest:
         from .selftest import runner
-        return runner.main(a.prop, a.jobs)
+        return runner.main(a.prop, a.jobs, repo=a.repo)
     if a.replay:
         with open(a.replay) as fh:
             rec = json.load(fh)
@@ -91,19 +94,19 @@ def main(argv=None):
                     x.strip()[:160] for x in (viol + err)[:3])))
             rc = max(rc, r)
         return rc
-    rc = run_property(a.prop, a.tier, seed, a.repo)
-    if a.tier == 'thorough' and rc == 0:
-        try:
-            from .selftest import runner
-        except ImportError:
-            runner = None
-        if runner is not None:
-            rc2 = runner.main(a.prop, a.jobs, quiet=True)
-            if rc2 != 0:
-                sys.stdout.write('ANALYSIS-ERROR property=%s checker '
-                                 'self-test failed\n' % a.prop)
-                return 2
-    return rc
+    extra = None
+    if a.tier == 'thorough':
+        # The verdict on /repo is the same exhaustive static check as the
+        # quick tier.  The thorough tier adds the checker's own sensitivity
+        # test: every catalogued breaking change that this property's check
+        # must flag, and every catalogued behaviour-preserving change it must
+        # stay silent on, applied to scratch copies of the CURRENT tree.  Its
+        # outcome is reported (and written to the evidence) but does not
+        # change the verdict on /repo.
+        from .selftest import runner
+        extra = {}
+        runner.main(a.prop, a.jobs, quiet=True, repo=a.repo, results=extra)
+    return run_property(a.prop, a.tier, seed, a.repo, extra=extra)
 
 
 if __name__ == '__main__':
